@@ -45,7 +45,7 @@ def run_demo(d, demo):
         return -9, 'timeout'
 
 
-def verify(sid, checks=None, tier='quick', tests=True):
+def verify(sid, checks=None, tier='quick', tests=True, write=True):
     sdir = os.path.join(HERE, 'seeded', sid)
     meta_path = os.path.join(sdir, 'meta.json')
     meta = json.load(open(meta_path))
@@ -91,8 +91,9 @@ def verify(sid, checks=None, tier='quick', tests=True):
         for k in ('baseline_tests_with_patch', 'baseline_green'):
             if k in old:
                 conf[k] = old[k]
-    meta['confirmation'] = conf
-    json.dump(meta, open(meta_path, 'w'), indent=1)
+    if write:
+        meta['confirmation'] = conf
+        json.dump(meta, open(meta_path, 'w'), indent=1)
     print(f"{sid:28s} valid={conf['valid_seed']} caught={conf['caught']} demo {rc0}->{rc1} "
           f"tests={conf.get('baseline_tests_with_patch', 'skipped')} checks={ {k: (v['rc'], v['mechanisms'][:3]) for k, v in res.items()} }")
     return conf
@@ -105,6 +106,7 @@ def main():
     ap.add_argument('--checks')
     ap.add_argument('--tier', default='quick')
     ap.add_argument('--no-tests', action='store_true')
+    ap.add_argument('--no-write', action='store_true')
     a = ap.parse_args()
     checks = a.checks.split(',') if a.checks else None
     if a.cmd == 'import':
@@ -127,7 +129,7 @@ def main():
     else:
         for sid in sorted(os.listdir(os.path.join(HERE, 'seeded'))):
             if os.path.exists(os.path.join(HERE, 'seeded', sid, 'meta.json')):
-                verify(sid, checks, a.tier, tests=False)
+                verify(sid, checks, a.tier, tests=False, write=not a.no_write)
 
 
 if __name__ == '__main__':
